@@ -207,15 +207,19 @@ pub fn run(ctx: &Ctx, out: &mut CaseOut) {
                         };
                         let db2 = FaultDb::new(&*l.program, solver_name(&choice));
                         db2.budget.set(300_000);
+                        let stale_before = is_slg && crate::common::slg_goal_table_stale(&mut slg_s, &pj.goal);
                         let o2 = if is_slg { solve(&mut slg_s, &db2, &pj.goal) } else { solve(&mut *other_s, &db2, &pj.goal) };
                         match o2 {
                             Outcome::Answer(a) => {
                                 out.evals += 1;
                                 if &a != fj {
                                     ok = false;
-                                    let stale = is_slg && crate::common::slg_stale_table(&mut slg_s, &pj.goal);
+                                    let stale = is_slg && (stale_before || crate::common::slg_stale_table(&mut slg_s, &pj.goal));
                                     out.violation(
                                         if stale && a.is_none() && fj.is_some() {
+                                            Some("slg:stale-delayed-answer-table")
+                                        } else if is_slg && fj.is_none() && a.is_some() && crate::common::fresh_slg_stale(&l, &pj.goal) {
+                                            // it is the fresh solve that lost the answer (F11 within one search)
                                             Some("slg:stale-delayed-answer-table")
                                         } else if is_slg && ((trivial_unique(&a) && fj.as_ref().map_or(false, |s| s.is_ambig())) || (trivial_unique(fj) && a.as_ref().map_or(false, |s| s.is_ambig()))) {
                                             // F12: tables left half-explored by the interrupted solve change the order in which
